@@ -25,7 +25,9 @@ Record sattr := mkSAttr { sa_implied : bool; sa_name : str; sa_boolean : bool; s
 Inductive spart :=
 | PId (k : nat) (v : str)            (* #v ; k further `#` in front: ##v ... (a "multiple" mention) *)
 | PClass (k : nat) (v : str)         (* .v ; k further `.` in front: ..v ...                        *)
-| PSet (l : list sattr).             (* [a1 a2 ... an], single spaces between *)
+| PSet (lead : str) (l : list (sattr * str)).
+     (* [ lead a1 w1 a2 w2 ... an wn ]: white space [lead] after `[`, [wi] after attribute i; any white space
+        (blanks, tabs, nbsp, line breaks), at least one character between two attributes *)
 
 (* an element: name, parts, optionally a text `{T}`, optionally the self-closing mark `/` written last *)
 Record selem := mkSElem { se_name : str; se_parts : list spart; se_text : option str; se_close : bool }.
@@ -45,18 +47,25 @@ Definition val_text (v : sval) : str :=
   end.
 Definition attr_text (a : sattr) : str := aname_text a ++ val_text (sa_value a).
 
-Fixpoint attrs_text (l : list sattr) : str :=
+Fixpoint attrs_text (l : list (sattr * str)) : str :=
   match l with
   | [] => []
-  | [a] => attr_text a
-  | a :: l' => attr_text a ++ c_space :: attrs_text l'
+  | (a, w) :: l' => attr_text a ++ w ++ attrs_text l'
+  end.
+
+(* attributes separated by single spaces, the usual way of writing a set *)
+Fixpoint spaced (l : list sattr) : list (sattr * str) :=
+  match l with
+  | [] => []
+  | [a] => [(a, [])]
+  | a :: l' => (a, [c_space]) :: spaced l'
   end.
 
 Definition part_text (p : spart) : str :=
   match p with
   | PId k v => repeat c_hash (S k) ++ v
   | PClass k v => repeat c_dot (S k) ++ v
-  | PSet l => c_lbrack :: attrs_text l ++ [c_rbrack]
+  | PSet lead l => c_lbrack :: lead ++ attrs_text l ++ [c_rbrack]
   end.
 Fixpoint parts_text (ps : list spart) : str :=
   match ps with [] => [] | p :: ps' => part_text p ++ parts_text ps' end.
@@ -106,10 +115,18 @@ Definition sattr_ok (a : sattr) : Prop :=
   sval_ok (sa_value a).
 
 Definition word_ok (w : str) : Prop := w <> [] /\ Forall name_char w.
+(* white space: blanks, tabs, nbsp, line breaks *)
+Definition ws_ok (w : str) : Prop := Forall (fun c => is_space c = true) w.
+(* two attributes are separated by at least one white-space character *)
+Fixpoint seps_ok (l : list (sattr * str)) : Prop :=
+  match l with
+  | [] => True
+  | (_, w) :: l' => (l' <> [] -> w <> []) /\ seps_ok l'
+  end.
 Definition spart_ok (p : spart) : Prop :=
   match p with
   | PId _ v | PClass _ v => word_ok v
-  | PSet l => Forall sattr_ok l
+  | PSet lead l => ws_ok lead /\ Forall (fun aw => sattr_ok (fst aw) /\ ws_ok (snd aw)) l /\ seps_ok l
   end.
 Definition selem_ok (e : selem) : Prop :=
   word_ok (se_name e) /\ Forall spart_ok (se_parts e) /\
@@ -152,14 +169,15 @@ Definition aname_tok (pos : nat) (a : sattr) : token :=
 Definition attr_toks (pos : nat) (a : sattr) : list token :=
   aname_tok pos a :: val_toks (pos + length (aname_text a)) (sa_value a).
 
-Definition space_tok (pos : nat) : token := tk1 (TWhiteSpace [c_space]) pos.
+Definition ws_toks (pos : nat) (w : str) : list token :=
+  match w with [] => [] | _ => [mkTok (TWhiteSpace w) pos (pos + length w)] end.
 
-Fixpoint attrs_toks (pos : nat) (l : list sattr) : list token :=
+Fixpoint attrs_toks (pos : nat) (l : list (sattr * str)) : list token :=
   match l with
   | [] => []
-  | [a] => attr_toks pos a
-  | a :: l' =>
-      attr_toks pos a ++ space_tok (pos + length (attr_text a)) :: attrs_toks (pos + length (attr_text a) + 1) l'
+  | (a, w) :: l' =>
+      attr_toks pos a ++ ws_toks (pos + length (attr_text a)) w
+      ++ attrs_toks (pos + length (attr_text a) + length w) l'
   end.
 
 (* a run of [n] operator characters *)
@@ -170,9 +188,9 @@ Definition part_toks (pos : nat) (p : spart) : list token :=
   match p with
   | PId k v => op_run OpId pos (S k) ++ [word_tok (pos + S k) v]
   | PClass k v => op_run OpClass pos (S k) ++ [word_tok (pos + S k) v]
-  | PSet l =>
-      tk1 (TBracket true BAttr) pos :: attrs_toks (pos + 1) l
-      ++ [tk1 (TBracket false BAttr) (pos + 1 + length (attrs_text l))]
+  | PSet lead l =>
+      tk1 (TBracket true BAttr) pos :: ws_toks (pos + 1) lead ++ attrs_toks (pos + 1 + length lead) l
+      ++ [tk1 (TBracket false BAttr) (pos + 1 + length lead + length (attrs_text l))]
   end.
 Fixpoint parts_toks (pos : nat) (ps : list spart) : list token :=
   match ps with
@@ -487,8 +505,12 @@ Proof.
   eexists. apply (lit_astop prev c_eq rest). reflexivity.
 Qed.
 
-Lemma seg_space g : seg (CA g) [c_space] (fun pos => [space_tok pos]) (CA g) nospace.
-Proof. apply (seg_ws (CA g) c_space []). repeat constructor. Qed.
+Lemma seg_ws_opt ctx w : ws_ok w -> seg ctx w (fun pos => ws_toks pos w) ctx nospace.
+Proof.
+  intros H. destruct w as [|c W]; [apply seg_nil|]. cbn [ws_toks].
+  apply (seg_ext _ _ (fun pos => [mkTok (TWhiteSpace (c :: W)) pos (pos + S (length W))])); [reflexivity|].
+  apply seg_ws. exact H.
+Qed.
 
 Lemma seg_rbrack g :
   seg (CA g) [c_rbrack] (fun pos => [tk1 (TBracket false BAttr) pos]) (C0 g) (fun _ => True).
@@ -815,26 +837,34 @@ Proof.
   cbn [forallb] in Hsafe. apply andb_true_iff in Hsafe. exists c, (r ++ val_text (sa_value a)). split; [reflexivity|tauto].
 Qed.
 
-Lemma attrs_text_head a l : sattr_ok a -> exists c r, attrs_text (a :: l) = c :: r /\ asafe c = true.
+Lemma attrs_text_head a w l : sattr_ok a -> exists c r, attrs_text ((a, w) :: l) = c :: r /\ asafe c = true.
 Proof.
   intros H. destruct (attr_text_head a H) as [c [r [E Hc]]].
-  destruct l as [|b l']; cbn [attrs_text]; rewrite E; cbn [app]; eauto.
+  cbn [attrs_text]. rewrite E. cbn [app]. eauto.
 Qed.
 
+Lemma space_abreak c : is_space c = true -> abreak c = true.
+Proof. intros H. unfold abreak. rewrite H. rewrite orb_true_r. reflexivity. Qed.
+
 Lemma seg_attrs g : forall l,
-  Forall sattr_ok l -> seg (CA g) (attrs_text l) (fun pos => attrs_toks pos l) (CA g) astop.
+  Forall (fun aw => sattr_ok (fst aw) /\ ws_ok (snd aw)) l -> seps_ok l ->
+  seg (CA g) (attrs_text l) (fun pos => attrs_toks pos l) (CA g) (starts_with_c c_rbrack).
 Proof.
-  induction l as [|a l IH]; intros HF.
-  - apply seg_nil.
-  - inversion HF as [|x y Ha HF']; subst. destruct l as [|b l'].
-    + cbn [attrs_text attrs_toks]. apply seg_attr. exact Ha.
-    + change (attrs_text (a :: b :: l')) with (attr_text a ++ ([c_space] ++ attrs_text (b :: l'))).
-      eapply seg_app'; [apply seg_attr; exact Ha| |intros; reflexivity|].
-      * eapply seg_app'; [apply seg_space|apply IH; exact HF'| |intros pos; reflexivity].
-        intros rest _. inversion HF' as [|x y Hb _]; subst.
-        destruct (attrs_text_head b l' Hb) as [c [r [E Hc]]]. rewrite E. cbn [app nospace].
+  induction l as [|[a w] l IH]; intros HF Hs.
+  - apply (seg_weaken _ _ _ _ (fun _ => True)); [auto|]. apply seg_nil.
+  - inversion HF as [|x y [Ha Hw] HF']; subst. cbn [fst snd] in *. cbn [seps_ok] in Hs. destruct Hs as [Hsep Hs'].
+    cbn [attrs_text].
+    eapply seg_app'; [apply seg_attr; exact Ha| | |].
+    + eapply seg_app'; [apply seg_ws_opt; exact Hw|apply IH; assumption| |intros pos; reflexivity].
+      intros rest [rr ->]. destruct l as [|[b wb] l'].
+      * cbn [attrs_text app nospace]. reflexivity.
+      * inversion HF' as [|x y [Hb _] _]; subst. cbn [fst] in Hb.
+        destruct (attrs_text_head b wb l' Hb) as [c [r [E Hc]]]. rewrite E. cbn [app nospace].
         destruct (asafe_facts c Hc) as [_ [_ [_ [H4 _]]]]. exact H4.
-      * intros pos. reflexivity.
+    + intros rest [rr ->]. destruct w as [|c0 W].
+      * destruct l as [|x l']; [cbn [attrs_text app astop]; reflexivity|]. exfalso. apply Hsep; [discriminate|reflexivity].
+      * cbn [app astop]. apply space_abreak. inversion Hw; assumption.
+    + intros pos. reflexivity.
 Qed.
 
 (* ================================================================ parts and the element *)
@@ -853,17 +883,25 @@ Qed.
 Lemma seg_part g p :
   spart_ok p -> seg (C0 g) (part_text p) (fun pos => part_toks pos p) (C0 g) wstop.
 Proof.
-  destruct p as [k v|k v|l]; cbn [spart_ok part_text]; intros Hok.
+  destruct p as [k v|k v|lead l]; cbn [spart_ok part_text]; intros Hok.
   - eapply seg_app'; [apply (seg_op_run g c_hash OpId); auto|apply seg_word0; exact Hok|(intros; exact I)|].
     intros pos. cbn [part_toks]. rewrite repeat_length. reflexivity.
   - eapply seg_app'; [apply (seg_op_run g c_dot OpClass); auto|apply seg_word0; exact Hok|(intros; exact I)|].
     intros pos. cbn [part_toks]. rewrite repeat_length. reflexivity.
-  - apply (seg_weaken _ _ _ _ (fun _ => True)); [auto|].
-    change (c_lbrack :: attrs_text l ++ [c_rbrack]) with ([c_lbrack] ++ (attrs_text l ++ [c_rbrack])).
+  - destruct Hok as [Hlead [HF Hs]].
+    apply (seg_weaken _ _ _ _ (fun _ => True)); [auto|].
+    change (c_lbrack :: lead ++ attrs_text l ++ [c_rbrack]) with ([c_lbrack] ++ (lead ++ (attrs_text l ++ [c_rbrack]))).
     eapply seg_app'; [apply seg_lbrack| |(intros; exact I)|].
-    + eapply seg_app'; [apply seg_attrs; exact Hok|apply seg_rbrack| |intros pos; reflexivity].
-      intros rest _. reflexivity.
-    + intros pos. reflexivity.
+    + eapply seg_app'; [apply seg_ws_opt; exact Hlead| | |].
+      * eapply seg_app'; [apply seg_attrs; assumption|apply seg_rbrack| |intros pos; reflexivity].
+        intros rest _. eexists. reflexivity.
+      * intros rest _. destruct l as [|[b wb] l'].
+        -- cbn [attrs_text app nospace]. reflexivity.
+        -- inversion HF as [|x y [Hb _] _]; subst. cbn [fst] in Hb.
+           destruct (attrs_text_head b wb l' Hb) as [c [r [E Hc]]]. rewrite <- app_assoc. rewrite E. cbn [app nospace].
+           destruct (asafe_facts c Hc) as [_ [_ [_ [H4 _]]]]. exact H4.
+      * intros pos. reflexivity.
+    + intros pos. cbn [part_toks app length]. reflexivity.
 Qed.
 
 Lemma part_text_wstop p rest : wstop (part_text p ++ rest).
@@ -969,3 +1007,11 @@ Proof.
   intros H. unfold tokenize. pose proof (seg_elem 0%Z e H None 0%nat [] (conj I eq_refl)) as E.
   rewrite app_nil_r in E. change (C0 0) with ctx0 in E. rewrite E. cbn [toks tcons]. rewrite app_nil_r. reflexivity.
 Qed.
+
+(* for concrete elements: discharge the well-formedness conditions of the grammar by computation *)
+Ltac grammar_ok :=
+  repeat first
+    [ exact I | reflexivity | discriminate
+    | apply Forall_nil | apply Forall_cons | split
+    | solve [auto]
+    | (intros; first [discriminate | assumption | (exfalso; congruence)]) ].
